@@ -9,6 +9,8 @@ import (
 	pkts "github.com/energomonitor/bisquitt/packets"
 	"github.com/energomonitor/bisquitt/transactions"
 	"github.com/energomonitor/bisquitt/util"
+
+	"verifsim/simrt"
 )
 
 type TXResult struct{}
@@ -203,16 +205,19 @@ func (s *Sim) runTX(res *Result, horizon time.Duration) {
 	}
 }
 
+// runThreads: the caller threads of C29 all run at one virtual instant; the scheduler interleaves
+// them at every yield site of the code under test and at a harness yield (one site per thread, so
+// that the order in which the Go runtime starts them does not matter) before every call.
 func (s *Sim) runThreads(tx *TXPlan, f func(ch string, op TXOp) string) {
 	w := s.W
-	gates := s.newGates(tx)
 	w.At(0, "txop:", func() {
 		for ti, ops := range tx.Threads {
 			ti, ops := ti, ops
 			go func() {
 				ch := fmt.Sprintf("txt:%d", ti)
+				site := fmt.Sprintf("harness/txthread:%02d", ti)
 				for oi, op := range ops {
-					gates.wait(ti, oi)
+					simrt.YieldAlways(site)
 					w.Log(ch, "invoke", nil, fmt.Sprintf("%s %d %d", op.Op, op.Key, op.Val), int64(oi))
 					r := f(ch, op)
 					w.Log(ch, "return", nil, r, int64(oi))
